@@ -58,6 +58,9 @@ type Case struct {
 	BadSeg  int      `json:"badseg,omitempty"`  // col: segment index of that difference
 	Bounds  []int    `json:"bounds,omitempty"`  // rows: byte offsets of the row boundaries
 	PPanic  int      `json:"ppanic,omitempty"`  // rows: prefixes rejected by a (recovered) panic
+	Series  []SeriesIn `json:"series,omitempty"` // file: the series written
+	Rep     []uint64 `json:"rep,omitempty"`     // corpus: vals = rep[0] repeated rep[1] times
+	Fails   []FailJ  `json:"fails,omitempty"`   // file: every difference the oracle found
 	RowsJ   []RowJ   `json:"rowsj,omitempty"`   // rows: the batch, field by field (for the model)
 	Seed    uint64   `json:"seed,omitempty"`    // rows/record: generator seed of the case
 	seed    uint64
@@ -948,11 +951,17 @@ func runCase(c *Case) {
 		runCol(c)
 	case "rows":
 		runRows(c)
+	case "file":
+		runFile(c)
 	}
 	gen.Emit(c)
 }
 
 func main() {
+	if len(os.Args) > 1 && os.Args[1] == "consts" {
+		printConsts()
+		return
+	}
 	n := 300
 	if len(os.Args) > 1 {
 		n, _ = strconv.Atoi(os.Args[1])
@@ -981,8 +990,14 @@ func main() {
 					fmt.Fprintln(os.Stderr, "bad corpus line in", f, err)
 					os.Exit(3)
 				}
-				c := Case{K: in.K, Vals: in.Vals, Strs: in.Strs, Algo: in.Algo, Typ: in.Typ, Payload: in.Payload, Lim: in.Lim, Cols: in.Cols,
+				c := Case{K: in.K, Vals: in.Vals, Strs: in.Strs, Algo: in.Algo, Typ: in.Typ, Payload: in.Payload, Lim: in.Lim, Cols: in.Cols, Series: in.Series,
 					Seed: in.Seed, seed: in.Seed, Shape: "corpus", Src: filepath.Base(f)}
+				if len(in.Rep) == 2 {
+					c.Vals = make([]uint64, in.Rep[1])
+					for i := range c.Vals {
+						c.Vals[i] = in.Rep[0]
+					}
+				}
 				if c.Vals == nil {
 					c.Vals = []uint64{}
 				}
@@ -995,7 +1010,9 @@ func main() {
 	for i := 0; i < n; i++ {
 		c := Case{}
 		switch k := i % 16; {
-		case k >= 12 && k < 15:
+		case k == 12:
+			genFile(r, &c)
+		case k > 12 && k < 15:
 			genCol(r, &c)
 		case k == 15:
 			genRowsCase(r, &c)
